@@ -200,7 +200,7 @@ int main(int argc, char **argv) {
                 next_id += (int)n; left -= n;
                 int extras = *gx::range<int>(0, 3);
                 for (int x = 0; x < extras; x++) {
-                    int what = *gx::range<int>(0, 12);
+                    int what = *gx::range<int>(0, 13);
                     Op o;
                     if (what == 0 && next_id > 0) { int id = *gx::range<int>(0, next_id - 1); o.kind = K_PROBE; o.a = {id, id % 3, 0, 0}; }   // exact duplicate (maybe of an already reported one: then it is new again)
                     else if (what == 1) { o.kind = K_BURST; o.a = {*gx::range<int>(400, 800), *gx::range<int>(1, 5), *gx::pick({1, 1, 2, 3})}; }   // addressed to another station (both levels or one of them)
@@ -212,6 +212,7 @@ int main(int argc, char **argv) {
                     else if (what == 8) { o.kind = K_SHELL; o.a = {*gx::range<int>(0, 2), 1, *gx::pick({6, 6, 2, 4}), *hg::seq_gen(), 0}; }   // quick discovery has no Query/Emit/Probe: such a frame is neither answered nor does it consume the record
                     else if (what == 10) { o.kind = K_PROBE; o.a = {*gx::pick({0, 1, 0xFFFFF0, 0xFFFFF1, 0xFFFFF3}), *gx::pick({0xFFFFF0, 0xFFFFF0, 0xFFFFF1, 0xFFFFF2, 0xFFFFF3}), 0, 0}; }   // origin claimed: the responder itself, nobody, everybody, the mapper
                     else if (what == 11 && next_id > 0) { int id = *gx::range<int>(0, std::min(next_id, 256) - 1); o.kind = K_PROBE; if (*gx::chance(50)) o.a = {0xFFFE00 + id, id % 3, 0, 0}; else o.a = {id, 0xFFFE00 + id % 3, 0, 0}; }   // twin of an observed address: a distinct observation
+                    else if (what == 13) { o.kind = K_SHELL; o.a = {*gx::range<int>(0, 2), 0, *gx::pick({9, 9, 10, 5, 7, 12, 1}), *gx::pick({0, 0, 1, 7}), 0}; }   // Charge, Flat, ACK, QueryResp ... addressed to this station: not observations
                     else if (what == 12) { o.kind = K_ADVANCE; o.a = {*gx::pick({1000, 30000, 61000, 120000, 600000})}; }   // time passes: an observation waits for the next Query however long that takes
                     else if (what == 9) { o.kind = K_OTHERIF; o.a = {*gx::pick({0, 3, 5, 5, 5, 1, 2}), 0, *gx::range<int>(1, 400)}; }
                     else { o.kind = K_HELLO; o.a = {1, 0, 7}; }
